@@ -61,6 +61,7 @@ func c08Gen(g *Gen) {
 	for _, s := range c08Corpus {
 		emit("corpus", s, true)
 	}
+	g.Emit("TABLES") // not a case: the driver reports whether Parser.lean's table agrees with the regenerated one
 	// the format tool on a directory tree: FormatFiles / Format, plain directory / symbolic link, other extension, -help
 	for v := 0; v < 8; v++ {
 		g.Count("format-tree")
